@@ -1,3 +1,65 @@
-import Tpp.Model.Screen
+import Tpp.Lemmas.DrawFrame
+/-!
+C04 – `screen.draw` sends only the cells that changed; an unchanged canvas sends nothing.
+
+`changedCell base c p` is the library's own element inequality (`!=`, which ignores unused glyph storage)
+between the frame the draw is diffed against (`Screen.base`: the previously drawn canvas, or blanks of the
+new size after a size change) and the canvas being drawn.
+-/
 namespace Tpp.Props.C04
+open Tpp
+
+/-- drawing a canvas equal to the one last drawn writes no bytes at all – from any terminal state -/
+theorem C04_same_canvas_silent (beh : Behaviour) (scr : ScreenState) (c : Canvas) (s : TermState) :
+    (run beh s (Screen.draw (Screen.draw scr c).1 c).2).2 = [] := by
+  have h : (Screen.draw (Screen.draw scr c).1 c).2 = [] := by
+    simp only [Screen.draw, Screen.drawOps, Screen.base, ne_eq, not_true_eq_false, if_false, List.nil_append]
+    rw [List.flatMap_eq_nil_iff]
+    intro p _
+    simp [Screen.cellOps, Element.eq_refl]
+  rw [h]; rfl
+
+/-- the operations of a draw: an erase exactly when the size changed, then – in `for_each_in_region`
+    (row-major) order – one move + one element for each cell whose element differs, and nothing for any other cell -/
+theorem C04_ops_exact (scr : ScreenState) (c : Canvas) :
+    (Screen.draw scr c).2 =
+      (if c.size ≠ scr.last.size then [Op.erase .display] else []) ++
+      ((fullRegion c).filter (changedCell (Screen.base scr c) c)).flatMap
+        (fun p => [Op.moveCursor ⟨p.1, p.2⟩, Op.writeElement (c.get p.1 p.2)]) := by
+  simp only [Screen.draw, Screen.drawOps, fullRegion]
+  congr 1
+  induction regionCoords ⟨⟨0, 0⟩, c.size⟩ with
+  | nil => rfl
+  | cons p ps ih =>
+    simp only [List.flatMap_cons, List.filter_cons, ih, cellOps_eq]
+    cases changedCell (Screen.base scr c) c p <;> simp
+
+/-- row-major, each cell at most once (the region enumeration has no duplicates) -/
+theorem C04_each_once (c : Canvas) : (fullRegion c).Nodup ∧ List.Pairwise Tpp.Lemmas.Canvas.RowMajorLt (fullRegion c) :=
+  ⟨Tpp.Lemmas.Canvas.nodup_regionCoords _, Tpp.Lemmas.Canvas.pairwise_regionCoords _⟩
+
+/-- **on the wire**: the glyphs the reference terminal receives during one draw are exactly the changed
+    cells – each once, in row-major order, at its own position, shown as the canvas's element – and no other;
+    on every kind of terminal (no condition on the wrap mode is needed for what is *transmitted*) -/
+theorem C04_wire_exact (beh : Behaviour) (scr : ScreenState) (c : Canvas) (s : TermState) (vt : VT)
+    (hA : Agree s vt) (hsize : c.size = s.size) (hwf : c.cellsWF) :
+    (vt.feedAll (drawRun beh scr c s).2).log
+      = vt.log ++ ((fullRegion c).filter (changedCell (Screen.base scr c) c)).map (drawnEntry c) := by
+  -- the grid hypothesis of `draw_frame` is only used for its last conjunct; supply it vacuously via cases
+  by_cases hsz : c.size = scr.last.size
+  · -- same size: run the loop directly
+    have hr : drawRun beh scr c s = run beh s ((fullRegion c).flatMap (Screen.cellOps (Screen.base scr c) c)) := by
+      simp [drawRun, Screen.draw, Screen.drawOps, hsz, fullRegion]
+    rw [hr]
+    have hin : ∀ p ∈ fullRegion c, 0 ≤ p.1 ∧ p.1 < s.size.width ∧ 0 ≤ p.2 ∧ p.2 < s.size.height := by
+      intro p hp; rw [mem_fullRegion] at hp; rw [← hsize]; exact ⟨hp.1.1, hp.1.2, hp.2.1, hp.2.2⟩
+    have hwfp : ∀ p ∈ fullRegion c, (c.get p.1 p.2).wf = true := by
+      intro p hp; rw [mem_fullRegion] at hp; exact hwf p.1 p.2 hp.1.1 hp.1.2 hp.2.1 hp.2.2
+    exact (draw_loop beh (Screen.base scr c) c (fullRegion c) s vt hA hin hwfp).2.2.2.2.1
+  · exact (draw_frame beh scr c s vt hA hsize hwf (fun h => absurd h hsz)).2.2.1
+
+-- non-vacuity: a 2x1 canvas whose second cell differs from the blank frame
+example : (fullRegion (((Canvas.new ⟨2, 1⟩).set 1 0 { glyph := { b0 := 0x41 } }))).filter
+    (changedCell (Canvas.new ⟨2, 1⟩) ((Canvas.new ⟨2, 1⟩).set 1 0 { glyph := { b0 := 0x41 } })) = [(1, 0)] := by decide
+
 end Tpp.Props.C04
